@@ -100,10 +100,17 @@ def build_http_like(x: dict, rng: random.Random, alt: int) -> BaseException:
         nm = ALT_NAMES[x["name"]][(alt - 1) % len(ALT_NAMES[x["name"]])]
         cls = type(nm, (Exception,), {})
     args = () if x["arg"]["c"] == "absent" else (concretise(x["arg"], rng, alt),)
+    values = {attr: concretise(x[attr], rng, alt) for attr in ("status", "status_code", "code")
+              if x[attr]["c"] != "absent"}
+    where = alt % 3        # the attributes live on the instance, on the class, or behind properties
+    if where == 1 and values:
+        cls = type(cls.__name__, (cls,), dict(values))
+    elif where == 2 and values:
+        cls = type(cls.__name__, (cls,), {k: property(lambda self, _v=v: _v) for k, v in values.items()})
     e = cls(*args)
-    for attr in ("status", "status_code", "code"):
-        if x[attr]["c"] != "absent":
-            setattr(e, attr, concretise(x[attr], rng, alt))
+    if where == 0:
+        for attr, v in values.items():
+            setattr(e, attr, v)
     return e
 
 
@@ -118,6 +125,9 @@ def build_sql(x: dict, rng: random.Random, alt: int) -> BaseException:
         args = ([f"[{code}] driver said no", f"[{code}]", f"x [{code}] [IM002] y"][alt % 3],)
     elif shape == "embedded":
         args = ([f"error {code} occurred", f"({code})", f"state={code};"][alt % 3],)
+    elif shape == "wordbracket":
+        args = ([f"ERROR [{code}] deadlock detected", f"FATAL 10054 [{code}] connection reset",
+                 f"QUERY [{code}]"][alt % 3],)
     elif shape == "second":
         args = (["could not complete the statement", "no", ""][alt % 3], f"[{code}] driver message")
     else:
